@@ -18,6 +18,7 @@ abbrev QKey := Nat × List Nat
 
 structure QEntry where
   key : QKey
+  q : List Nat                 -- the stored query embedding (bits); replaced together with `res`
   reqK : Nat
   res : List (Nat × Nat)
 deriving DecidableEq, Repr
@@ -43,39 +44,35 @@ def touch (c : QCache) (k : QKey) : QCache :=
   | none => c
 
 /-- `insert_with_k_scoped_if_generation`.  Returns whether the store was accepted. -/
-def store (c : QCache) (k : QKey) (reqK0 : Nat) (res : List (Nat × Nat)) (expGen : Option Nat) :
-    QCache × Bool :=
+def store (c : QCache) (k : QKey) (q : List Nat) (reqK0 : Nat) (res : List (Nat × Nat))
+    (expGen : Option Nat) : QCache × Bool :=
   let reqK := max reqK0 res.length
   if expGen.isSome && expGen != some c.gen then (c, false) else
   match c.find? k with
   | some old =>
     if reqK ≥ old.reqK then
-      ({ c with entries := without c.entries k ++ [⟨k, reqK, res⟩] }, true)
+      ({ c with entries := without c.entries k ++ [⟨k, q, reqK, res⟩] }, true)
     else
       ({ c with entries := without c.entries k ++ [old] }, true)
   | none =>
     let kept := if c.entries.length ≥ c.cap then c.entries.tail else c.entries
-    ({ c with entries := kept ++ [⟨k, reqK, res⟩] }, true)
+    ({ c with entries := kept ++ [⟨k, q, reqK, res⟩] }, true)
 
-/-- `get_scoped`.  `order` lists, best first, the keys whose stored query is more similar to
-    the probe than the configured threshold (oracle input; ties excluded by the generator). -/
-def get (c : QCache) (k : QKey) (want : Nat) (order : List QKey) :
+/-- `get_scoped`.  `order` lists, best first, the stored query embeddings (bits) of this scope
+    that are more similar to the probe than the configured threshold (oracle input; ties
+    excluded by the generator). -/
+def get (c : QCache) (k : QKey) (want : Nat) (order : List (List Nat)) :
     QCache × Option (List (Nat × Nat)) :=
   match c.find? k with
   | some e =>
     if e.reqK ≥ want then (c.touch k, some (e.res.take want))
     else (c, none)                                   -- insufficient k: plain miss, no scan
   | none =>
-    let eligible := order.filter fun ck =>
-      ck.1 == k.1 && !(ck == k) &&
-        (match c.find? ck with
-         | some e => decide (e.reqK ≥ want)
-         | none => false)
+    let eligible := order.filterMap fun qv =>
+      c.entries.find? fun e =>
+        e.key.1 == k.1 && !(e.key == k) && e.q == qv && decide (e.reqK ≥ want)
     match eligible with
-    | ck :: _ =>
-      match c.find? ck with
-      | some e => (c.touch ck, some (e.res.take want))
-      | none => (c, none)
+    | e :: _ => (c.touch e.key, some (e.res.take want))
     | [] => (c, none)
 
 /-- `invalidate_doc`: bump the generation, drop every entry whose results mention the doc. -/
@@ -126,23 +123,24 @@ def mustDrop (e : QEntry) (d : Option Nat) : Bool :=
     | none => true
     | some w => !f32IsFinite db || f32IsNaN db || f32Key db ≤ w
 
-def hitKeys (c : QCache) (dists : List (QKey × Option Nat)) : List QKey :=
+/-- `dists`: for each (scope, stored query bits) the distance to the inserted vector -/
+def hitKeys (c : QCache) (dists : List ((Nat × List Nat) × Option Nat)) : List QKey :=
   (c.entries.filter fun e =>
-    match dists.find? (·.1 == e.key) with
+    match dists.find? (·.1 == (e.key.1, e.q)) with
     | some (_, d) => mustDrop e d
     | none => true).map (·.key)
 
 end QCache
 
 inductive QOp where
-  | store (k : QKey) (reqK : Nat) (res : List (Nat × Nat)) (expGen : Option Nat)
-  | get (k : QKey) (want : Nat) (order : List QKey)
+  | store (k : QKey) (q : List Nat) (reqK : Nat) (res : List (Nat × Nat)) (expGen : Option Nat)
+  | get (k : QKey) (want : Nat) (order : List (List Nat))
   | invalidateDoc (d : Nat)
   | invalidateForInsert (hit : List QKey)
   | clear
 
 def QCache.applyOp (c : QCache) : QOp → QCache
-  | .store k r res g => (c.store k r res g).1
+  | .store k q r res g => (c.store k q r res g).1
   | .get k w o => (c.get k w o).1
   | .invalidateDoc d => (c.invalidateDoc d).1
   | .invalidateForInsert h => (c.invalidateForInsert h).1
